@@ -59,6 +59,8 @@ type worker struct {
 func startWorker() *worker {
 	cmd := exec.Command(os.Args[0], "worker")
 	cmd.Stderr = os.Stderr
+	// a worker stuck in an operation that never returns must not outlive a parent that was killed
+	cmd.SysProcAttr = &syscall.SysProcAttr{Pdeathsig: syscall.SIGKILL}
 	in, _ := cmd.StdinPipe()
 	outp, _ := cmd.StdoutPipe()
 	if err := cmd.Start(); err != nil {
